@@ -50,10 +50,11 @@ PROP = dict(
         "collinear points, observed and reported, not judged a violation); symmetry tolerance 1e-12 as in the design; tie-free data only for corr",
         "sort stability is not part of the statement and not checked",
         "corr.units: Spearman and Kendall depend only on the two orders, so the mapped data must give the reference of the plain pair (sign "
-        "flipped per decreasing map) within 64*n*eps / 8 eps; identical bits are expected but not demanded. Pearson is judged only where the "
-        "squares of the data, the two variances n*Sxx-Sx^2 and their product stay within [1e-290,1e290] and the tolerance 16*n*eps*kappa is "
-        "below 1e-3: this excludes the units 2^+-540, 2^+-1000, 2^+-300 applied to both samples, 1e-300 and 1e300 scales and the "
-        "adjacent-double maps, where the moment formula over/underflows (results there are counted as finite / non-finite, not judged)",
+        "flipped per decreasing map) within 64*n*eps / 8 eps; identical bits are expected but not demanded. Pearson is judged wherever the "
+        "squares of the data, the sums of squares and the two variances n*Sxx-Sx^2, n*Syy-Sy^2 EACH stay within [1e-290,1e290] and the "
+        "tolerance 16*n*eps*kappa is below 1e-3; the product of the two variances may leave the range (units 2^+-300 on both samples are "
+        "judged). Units whose squares are not representable in double (2^+-540, 2^+-1000, the 1e-300 and 1e300 scales, on one or both "
+        "samples) and the adjacent-double maps (kappa ~ 1e32) are only counted as finite / non-finite results, not judged)",
         "corr.large: references are O(n) long-double moments (Pearson), the exact integer closed form on O(n log n) ranks (Spearman) and a "
         "64-bit merge-sort inversion count (Kendall, cross-checked against the O(n^2) definition for every n <= 2000; a mismatch aborts the "
         "harness); tolerance 16*n*eps*kappa for the moment formulas, 8 eps for Kendall. The library's Kendall loop is O(n^2), so the 6-relation "
